@@ -202,9 +202,9 @@ def bounded_isolation(tier, seed):
 BOUNDED = [bounded_registration_orders, bounded_isolation]
 ASSUMPTIONS = [
     'isinstance(obj, C) is an opaque predicate of (type(obj), C); handlers / auto-discovery functions are opaque primitives',
-    '_register_fuzzy_type (tree construction) and register_op are NOT proved: they are summaries in the proofs and covered by the labelled bounded enumeration; '
+    '_register_fuzzy_type (tree construction) and register_op are proved equal to their references function by function, but that the resulting tree answers nearest-type queries for every registration order is NOT proved: it is covered by the labelled bounded enumeration; '
     '_get_closest_type is proved to return the deepest node along the first matching child at each level, which equals the nearest registered type when the tree is well formed',
-    'TargetRegistry.__init__ / _register_default_types are summaries (module initialisation)',
+    'TargetRegistry.__init__ (fresh state) and _register_default_types (order of the default registrations) are under contract; _register_builtin_ops is inlined into __init__ with register_op summarised (register_op has its own contract)',
 ]
 TRUSTED = ['reference semantics contracts/ref_registry.py', 'nearest-type oracle in contracts/C13.py (bounded stand-in)']
 EXPLANATION = ('get_handler (memo hit, exact table, closest type, UnregisteredTarget, memo store), get_type_map, _get_closest_type (recursive, own contract as induction hypothesis), '
@@ -218,4 +218,6 @@ CANARIES = [
      'new': "                try:\n                    raise KeyError(obj_type)\n                except KeyError:\n                    type_tree"},
     {'name': 'closest type: does not descend', 'module': 'core', 'only': ['core.TargetRegistry._get_closest_type'], 'expect': ['core.TargetRegistry._get_closest_type'],
      'old': "                ret = cur_type if sub_type is None else sub_type", 'new': "                ret = cur_type"},
+    {'name': 'default types: duck types registered before the containers', 'module': 'core', 'only': ['core.TargetRegistry._register_default_types'], 'expect': ['core.TargetRegistry._register_default_types'], 'old': '        self.register(object)\n        self.register(dict, get=operator.getitem)', 'new': '        self.register(object)\n        self.register(_ObjStyleKeys, keys=_ObjStyleKeys.get_keys)\n        self.register(dict, get=operator.getitem)'},
+    {'name': 'registry: memo shared through the class', 'module': 'core', 'only': ['core.TargetRegistry.__init__'], 'expect': ['core.TargetRegistry.__init__'], 'old': '        self._type_cache = {}\n\n        self._op_auto_map', 'new': "        self._type_cache = TargetRegistry.__dict__.get('_shared_cache', {})\n\n        self._op_auto_map"},
 ]
